@@ -282,48 +282,135 @@ def r3_reset_complete(ctx, rid: str = "C15.R3") -> None:
     if len(per_rule) < 5:
         raise AnalysisError(f"{pq}: only {len(per_rule)} init=False fields found (5 confirmed on the pinned tree)")
     ap = prog.func(pq + ".apply")
-    cfg = cfg_of(ap)
-    # first loop over self.items
-    loops = [n for n in walk_no_nested(ap.node) if isinstance(n, ast.For) and "self.items" in unparse(n.iter)]
-    if not loops:
-        raise AnalysisError(f"{ap.qual}: loop over self.items not found")
-    loop_nodes = cfg.nodes_of(loops[0])
-    for name, st in sorted(per_rule.items()):
-        stores = []
-        for n in walk_no_nested(ap.node):
-            if isinstance(n, (ast.Assign, ast.AnnAssign)):
-                tg = n.targets if isinstance(n, ast.Assign) else [n.target]
-                for t in tg:
-                    if isinstance(t, ast.Attribute) and t.attr == name and isinstance(t.value, ast.Name) and t.value.id == "self":
-                        stores.append(n)
-        loc = f"{ap.module.relpath}:{ap.node.lineno}"
-        fresh = [s for s in stores if _is_fresh(prog, ap, s.value)]
-        nodes = [x for s in fresh for x in cfg.nodes_of(s)]
-        # the same reset done by a helper method of the pipeline that apply() calls before the loop (self._reset…())
-        helper_hit = None
-        for hc in walk_no_nested(ap.node):
-            if isinstance(hc, ast.Expr) and isinstance(hc.value, ast.Call) and isinstance(hc.value.func, ast.Attribute) and isinstance(hc.value.func.value, ast.Name) \
-                    and hc.value.func.value.id == "self" and all(isinstance(a_, ast.Name) and a_.id in ap.params() for a_ in hc.value.args):
-                hm = prog.lookup_method(pq, hc.value.func.attr)
-                if hm is None:
-                    continue
-                hst = [x for x in walk_no_nested(hm.node) if isinstance(x, (ast.Assign, ast.AnnAssign)) and any(
-                    isinstance(t, ast.Attribute) and t.attr == name and isinstance(t.value, ast.Name) and t.value.id == "self"
-                    for t in (x.targets if isinstance(x, ast.Assign) else [x.target]))]
-                # every path through the helper stores a fresh object (helper's own CFG), and the last store on each path is fresh
-                hcfg = cfg_of(hm)
-                hfresh = [x for x in hst if getattr(x, "value", None) is not None and _is_fresh(prog, hm, x.value)]
-                hnodes = [nid for x in hfresh for nid in hcfg.nodes_of(x)]
-                if hst and len(hfresh) == len(hst) and hnodes and hcfg.must_pass(hcfg.exit, hnodes) and all(cfg.must_pass(ln, cfg.nodes_of(hc)) for ln in loop_nodes):
-                    helper_hit = (hm, hfresh[0])
-        if nodes and all(cfg.must_pass(ln, nodes) for ln in loop_nodes):
-            r.ok(rid, ap.qual, f"self.{name} = {unparse(fresh[0].value)} before the item loop", f"{ap.module.relpath}:{fresh[0].lineno}")
-        elif helper_hit is not None:
-            r.ok(rid, ap.qual, f"self.{name} = {unparse(helper_hit[1].value)} in {helper_hit[0].name}(), called unconditionally before the item loop", f"{helper_hit[0].module.relpath}:{helper_hit[1].lineno}")
+    # ProcessingPipeline.apply interpreted (sa.tabulate, Proxy): every per-rule field holds what the previous rule left behind;
+    # the first item that is applied (or the caller, for a pipeline without items) has to find each of them empty again
+    from collections import defaultdict as _dd
+    from ..tabulate import Proxy, call_method, Raised, Interp, module_env
+
+    # the tracking object keeps more than its mapping (a reverse mapping built in __init__): the stand-in has the same
+    # instance attributes, read from the source, so that emptying the mapping alone does not pass for a reset
+    fmt_cls = prog.classes.get("sigma.processing.tracking.FieldMappingTracking")
+    if fmt_cls is None or "__init__" not in fmt_cls.methods:
+        raise AnalysisError("anchor vanished: sigma.processing.tracking.FieldMappingTracking.__init__")
+    fmt_attrs = sorted({t.attr for n_ in ast.walk(fmt_cls.methods["__init__"].node) if isinstance(n_, (ast.Assign, ast.AnnAssign))
+                        for t in (n_.targets if isinstance(n_, ast.Assign) else [n_.target])
+                        if isinstance(t, ast.Attribute) and isinstance(t.value, ast.Name) and t.value.id == "self"})
+
+    class FieldMappingTracking(dict):
+        def __init__(self, *a, **k):
+            super().__init__(*a, **k)
+            for nm_ in fmt_attrs:
+                setattr(self, nm_, _dd(set))
+        def add_mapping(self, s_, t_):
+            self.setdefault(s_, set()).update(t_ if isinstance(t_, list) else [t_])
+            for nm_ in fmt_attrs:
+                getattr(self, nm_)[s_].add("x")
+        def merge(self, o_): self.update(o_)
+        def __copy__(self):
+            n_ = type(self)(self)
+            for nm_ in fmt_attrs:
+                setattr(n_, nm_, _dd(set, getattr(self, nm_)))
+            return n_
+
+    env = {"defaultdict": _dd, "FieldMappingTracking": FieldMappingTracking, "__class_state__": {}}
+    IK = {"max_steps": 8000}
+
+    def pollute(v):
+        if isinstance(v, list):
+            v.append(True)
+        elif isinstance(v, set):
+            v.add("zz")
+        elif isinstance(v, FieldMappingTracking):
+            v.add_mapping("zz", "zz")
+        elif isinstance(v, dict):
+            v["zz"] = {"zz"}
         else:
-            why = "is not re-initialised" if not stores else ("is re-initialised with a non-fresh object" if not fresh else "is not re-initialised on every path before the first item")
+            return False
+        return True
+
+    def stale_value(name):
+        kws = {k.arg: k.value for k in per_rule[name].value.keywords if k.arg}
+        it_ = Interp(module_env(prog, c.module, env, IK), **IK)
+        try:
+            v = it_.ev(kws["default_factory"])() if "default_factory" in kws else it_.ev(kws["default"])
+        except Exception:
+            v = None
+        if v is None or not pollute(v):
+            v = type("Stale", (), {"__repr__": lambda s_: f"<what the previous rule left in {name}>"})()
+        return v
+
+    def snapshot(v):
+        import copy as _copy
+        return _copy.copy(v) if isinstance(v, (list, set, dict)) else v
+
+    def content(v):
+        if isinstance(v, FieldMappingTracking):
+            return len(v) + sum(len(getattr(v, nm_)) for nm_ in fmt_attrs)
+        return len(v) if isinstance(v, (list, set, dict)) else None
+
+    problems: dict[str, str] = {}
+    for n_items in (2, 0):
+        for given in (None, {"k": "v"}):
+            seen_at_first: list[dict] = []
+
+            class _Item:
+                identifier = "it"
+                def __init__(self, me_): self.me = me_
+                def apply(self, rule, *a, **k):
+                    if not seen_at_first or seen_at_first[-1].get("__done__"):
+                        seen_at_first.append({nm: (getattr(self.me, nm), snapshot(getattr(self.me, nm))) for nm in per_rule})
+                        seen_at_first[-1]["__done__"] = False
+                    for nm in per_rule:
+                        if nm != "applied":
+                            pollute(getattr(self.me, nm))
+                    return True
+
+            instances = []
+            for inst in range(2):
+                stale = {nm: stale_value(nm) for nm in per_rule}
+                me = Proxy(prog, pq, env, dict(stale, items=[], postprocessing_items=[], finalizers=[], vars={}), interp_kwargs=IK)
+                me.items = [_Item(me) for _ in range(n_items)]
+                instances.append((me, stale))
+            for me, stale in instances:
+                for run in (1, 2):
+                    before = {nm: getattr(me, nm) for nm in per_rule}
+                    try:
+                        call_method(prog, pq, "apply", me, env, object(), *(() if given is None else (given,)), interp_kwargs=IK)
+                    except Raised as ex:
+                        problems.setdefault("*", f"apply raises {ex} ({n_items} items, state {'given' if given else 'not given'})")
+                        break
+                    if n_items:
+                        snap = seen_at_first[-1] if seen_at_first and not seen_at_first[-1]["__done__"] else None
+                        if snap is None:
+                            problems.setdefault("*", "no item was applied")
+                            break
+                        snap["__done__"] = True
+                    else:
+                        snap = {nm: (getattr(me, nm), snapshot(getattr(me, nm))) for nm in per_rule}
+                    for nm in per_rule:
+                        obj, v = snap[nm]
+                        when = "when the first item is applied" if n_items else "after apply() of a pipeline without items"
+                        if nm == "state" and given is not None:
+                            if obj is given:
+                                problems.setdefault(nm, f"is the caller's state object itself {when}, not a copy")
+                            elif not (isinstance(v, dict) and {k_: v_ for k_, v_ in v.items() if k_ != "zz"} == given) or (not n_items and "zz" in v):
+                                problems.setdefault(nm, f"is {v!r} {when} instead of a copy of the given state {given!r}")
+                            continue
+                        if obj is before[nm] and content(v) != 0:
+                            problems.setdefault(nm, f"is not re-initialised {when}: it still holds {v!r} from the previous rule ({'state given' if given else 'no state given'})")
+                        elif content(v) not in (0, None):
+                            problems.setdefault(nm, f"is re-initialised with a non-fresh object {when}: {v!r}")
+                        elif any(obj is x for nm2 in per_rule for x in (before[nm2],) if nm2 != nm and content(x) is not None):
+                            problems.setdefault(nm, f"is re-initialised with the object of another field {when}")
+    loc = f"{ap.module.relpath}:{ap.node.lineno}"
+    if "*" in problems:
+        r.violation(rid, ap.qual, "apply() on a pipeline with left-over per-rule fields", problems["*"], loc)
+    for name in sorted(per_rule):
+        if name in problems:
             r.violation(rid, ap.qual, f"reset of self.{name}",
-                        f"per-rule field {name} (init=False) {why} at the start of apply(): state of the previous rule stays visible to the next one", loc)
+                        f"per-rule field {name} (init=False) {problems[name]}: state of the previous rule stays visible to the next one", loc)
+        elif "*" not in problems:
+            r.ok(rid, ap.qual, f"self.{name} is empty again (a copy of the given state for state) when the first item is applied — interpreted with left-overs of a previous rule in every per-rule field, two runs on two instances, with and without items and state", loc)
     # nested pipelines go through the same apply()
     for q in ("sigma.processing.transformations.meta.NestedProcessingTransformation.apply",):
         f = prog.func(q)
